@@ -34,3 +34,5 @@ mod c27;
 mod c36;
 #[cfg(kani)]
 mod c35;
+#[cfg(kani)]
+mod c25;
